@@ -332,7 +332,7 @@ def coherentL (eo : EqOracle) : List V → List V → Bool
 end
 
 def wf (c : Case) : Bool :=
-  source c.tree && source c.tree2 && (vrow c 0).isSome &&
+  source c.tree && source c.tree2 && (vrow c 0).isSome && c.more.all (fun x => (vrow c x).isSome) &&
   -- (the equality oracle is only consulted, and only filled in, when both constructors succeed)
   (!(validArgs c.buildOracle c.tree && validArgs c.buildOracle c.tree2) || coherent c.eqOracle c.tree c.tree2)
 
@@ -351,6 +351,15 @@ def isProbe : V → Bool
   | .probe _ _ => true
   | _ => false
 
+/-- every later call of the history is judged like the first, on the value (and the world) of its own
+    time: whatever was validated before, by this or by an equal validator, does not matter -/
+def stepsOk (c : Case) : List Nat → List StepObs → Bool
+  | [], [] => true
+  | x :: xs, s :: ss =>
+    s.outcome == (if sat c.oracle c.tree x then none else some (excOf c.oracle c.tree x)) &&
+    (isProbe c.tree || s.retNone) && s.unchanged && stepsOk c xs ss
+  | _, _ => false
+
 def spec (c : Case) (o : Obs) : Bool :=
   if !validArgs c.buildOracle c.tree then true      -- nothing is demanded of an ill-formed constructor call
   else
@@ -359,6 +368,8 @@ def spec (c : Case) (o : Obs) : Bool :=
     o.outcome == (if sat c.oracle c.tree 0 then none else some (excOf c.oracle c.tree 0)) &&
     -- returns None (a bare user validator is no shipped validator), never alters the value
     (isProbe c.tree || o.retNone) && o.unchanged &&
+    -- … at every call of a history
+    stepsOk c c.more o.more &&
     -- equal parameters ⇒ equal, and hash-equal when the parameters are hashable
     (if !validArgs c.buildOracle c.tree2 then true
      else o.build2 == none &&
